@@ -5,6 +5,7 @@ import RV.Model.ClosedLoop
 import RV.Oracle.ClosedLoop
 import RV.Oracle.ClosedLoopLive
 import RV.Oracle.ClosedLoopTraffic
+import RV.Model.ClosedLoopRb
 namespace RV.Drv.ClosedLoop
 open Lean RV RV.Arith RV.Traffic RV.ClosedLoop RV.Drv.Arith RV.Drv.Traffic
 
@@ -89,7 +90,7 @@ def handle : Handler := fun op inp impl => do
     -- scope of the supersession theorems: the harness says the history so far was legal for the forward theorems; the driver
     -- itself decides whether THIS label is legal (`legalS pre`), the harness carries the verdict forward (`sup` of the next line)
     let supIn := match jopt inp "sup" with | some (.bool b) => b | _ => false
-    let sup := supIn && (match labelOf lab with | some l => RV.Oracle.ClosedLoop.legalS pre l | none => true)
+    let sup := supIn && (match labelOf lab with | some l => RV.Oracle.ClosedLoop.legalS pre l | none => lab != "rollback")
     let implPanic := (jopt impl "panic").isSome
     let holds := if implPanic then [("C09.loop_total", false), ("C06.loop_total", false)] else
       RV.Oracle.ClosedLoop.stateOracles post fwd del sup ++ RV.Oracle.ClosedLoop.stepOracles pre lab post fwd ++
@@ -116,7 +117,13 @@ def handle : Handler := fun op inp impl => do
     let tags := (if sup && !fwd then ["scope:sup", if RV.Oracle.ClosedLoop.resetInv post then "resetInv:holds" else "resetInv:no"] else []) ++ tags
     let tags := (if fwd then "scope:fwd" else if del then "scope:del" else "scope:any") :: (if del then [if RV.Oracle.ClosedLoop.delInv post then "delInv:holds" else "delInv:fails"] else []) ++ (if RV.Oracle.ClosedLoop.fwdInv post then "fwdInv:holds" else "fwdInv:fails") :: tags
     match labelOf lab with
-    | none => return { model := .null, holds := holds, tags := "uncompared" :: tags }
+    | none =>
+      -- the user event of the extended loop (RV.ClosedLoop.stepX)
+      if lab == "rollback" then
+        match stepX pre .rollback with
+        | some s' => return { model := csToJson s', holds := holds, tags := "label:rollback" :: tags }
+        | none => return { model := .null, holds := holds, tags := "uncompared" :: tags }
+      else return { model := .null, holds := holds, tags := "uncompared" :: tags }
     | some l =>
       match step pre l with
       | none => return { model := mkObj [("panic", strJ "?")], holds := holds, tags := "panic" :: tags }
